@@ -16,6 +16,8 @@ def run(ctx):
     from ..volumes import rule_V2
     rule_M1(ctx)
     rule_V2(ctx)      # leaf level: the ellipsoid sampler and contains() use inverse matrices
+    from ..effects import rule_F9
+    rule_F9(ctx)      # contains() / transform() leave the points they are asked about alone
     rule_A4(ctx)
     rule_M2(ctx, 'NeuralBound.contains')
     rule_M2(ctx, 'NautilusBound.contains')
